@@ -11,6 +11,23 @@ A8 = "A8 Kani 0.68 MIR->goto translation, CBMC 6.11 + CaDiCaL, Verus 0.2026.09.1
 A9 = "A9 default cargo features only (deflate), as the pinned test command builds"
 
 PROPS = {
+    "C02": {
+        "level": "proof",
+        "design_ref": "DESIGN.md §3 C02",
+        "technique": "Kani contract harnesses per (serde call x schema node kind) cell on the real Serializer impl, postcondition = independent executable Avro spec",
+        "level_text": "Deductive proof per cell of the (serde call x node kind) matrix: for every value of the presented type the real serializer returns Err, or Ok with "
+                      "exactly the specification's bytes, and Err whenever the node cannot represent the value. Value domains are complete (all bit patterns); "
+                      "payload lengths of bytes/str/sequence cells are bounded and labelled so.",
+        "level_note": "Nodes are static SchemaNode values handed to the real serializer through serializer_overriding_schema_root; name->index lookups (enum symbol by str, "
+                      "record field by name, union branch by name) are HashMap-based and assumed (A2); decimals from str/f64 go through rust_decimal (A3).",
+        "assumptions": [A1, A2, A3, A4, A7, A8],
+        "explanation": "Cells covered: every integer width x {int,date,time-millis,long,time-micros,timestamp-*,decimal(bytes),decimal(fixed n)} and rejection by non-numeric nodes; "
+                       "f32/f64 x {float,double}; bool/unit/none/unit-struct/unit-variant x {boolean,null,long}; bytes/str x {bytes,string,uuid,fixed,duration} and rejections; "
+                       "seq/tuple x {array,duration,bytes,fixed}; struct/map x {map,duration,record}; block writer advertised-length checks.",
+        "not_decided": ["str -> enum symbol, struct name -> union branch (HashMap lookups, A2)",
+                        "str / f64 -> decimal (rust_decimal parse, rescale: trusted dependency A3)",
+                        "PerTypeLookup::new priority table / conflict rule (populates a HashMap)"],
+    },
     "C08": {
         "level": "proof",
         "design_ref": "DESIGN.md §3 C08",
